@@ -4,6 +4,7 @@ package main
 // invariants and calls replaced by contracts.
 
 import (
+	"os"
 	"math/big"
 	"sync"
 	"fmt"
@@ -693,6 +694,7 @@ func analyseLoops(fn *ssa.Function) *loopInfo {
 		}
 		return li.headers[i].Index < li.headers[j].Index
 	})
+	live := map[*ssa.Alloc]map[*ssa.BasicBlock]bool{}
 	for i, h := range li.headers {
 		li.ordinal[h] = i
 		seen := map[*ssa.Alloc]bool{}
@@ -701,6 +703,17 @@ func analyseLoops(fn *ssa.Function) *loopInfo {
 				if s, ok := in.(*ssa.Store); ok {
 					if a, ok := rootAlloc(s.Addr); ok && !seen[a] {
 						seen[a] = true
+						// a variable that is dead at the loop head (always overwritten before it is read again)
+						// keeps whatever value it has: nothing can observe it
+						if _, done := live[a]; !done {
+							live[a] = liveIn(fn, a)
+						}
+						if os.Getenv("VGO_DEBUG_LIVE") != "" {
+							fmt.Fprintln(os.Stderr, "LIVE", fn.Name(), a.Comment, h.Index, live[a][h])
+						}
+						if !live[a][h] {
+							continue
+						}
 						li.modCells[h] = append(li.modCells[h], a)
 					}
 				}
@@ -708,6 +721,78 @@ func analyseLoops(fn *ssa.Function) *loopInfo {
 		}
 	}
 	return li
+}
+
+// liveIn computes, for a local variable, the blocks at whose entry its current value may still be read.
+// Any use other than a whole-variable store counts as a read (conservative).
+func liveIn(fn *ssa.Function, a *ssa.Alloc) map[*ssa.BasicBlock]bool {
+	use := map[*ssa.BasicBlock]bool{}
+	def := map[*ssa.BasicBlock]bool{}
+	for _, b := range fn.Blocks {
+		decided := false
+		for _, in := range b.Instrs {
+			if decided {
+				break
+			}
+			if st, ok := in.(*ssa.Store); ok && st.Addr == a {
+				if st.Val == ssa.Value(a) {
+					use[b] = true
+				} else {
+					def[b] = true
+				}
+				decided = true
+				continue
+			}
+			var ops []*ssa.Value
+			for _, op := range in.Operands(ops) {
+				if op != nil && *op == ssa.Value(a) {
+					if os.Getenv("VGO_DEBUG_LIVE") != "" && a.Comment == "arrayidx" {
+						fmt.Fprintf(os.Stderr, "  USE %s b%d %T %s\n", fn.Name(), b.Index, in, in.String())
+					}
+					use[b] = true
+					decided = true
+					break
+				}
+			}
+		}
+	}
+	// closures capturing the variable may read it at any time
+	if refs := a.Referrers(); refs != nil {
+		for _, rf := range *refs {
+			if _, ok := rf.(*ssa.MakeClosure); ok {
+				all := map[*ssa.BasicBlock]bool{}
+				for _, b := range fn.Blocks {
+					all[b] = true
+				}
+				return all
+			}
+		}
+	}
+	if os.Getenv("VGO_DEBUG_LIVE") != "" && (a.Comment == "arrayidx") {
+		for _, b := range fn.Blocks {
+			fmt.Fprintln(os.Stderr, "  UD", fn.Name(), a.Comment, b.Index, use[b], def[b])
+		}
+	}
+	live := map[*ssa.BasicBlock]bool{}
+	for changed := true; changed; {
+		changed = false
+		for i := len(fn.Blocks) - 1; i >= 0; i-- {
+			b := fn.Blocks[i]
+			l := use[b]
+			if !l && !def[b] {
+				for _, s := range b.Succs {
+					if live[s] {
+						l = true
+					}
+				}
+			}
+			if l && !live[b] {
+				live[b] = true
+				changed = true
+			}
+		}
+	}
+	return live
 }
 
 func rootAlloc(v ssa.Value) (*ssa.Alloc, bool) {
